@@ -255,7 +255,7 @@ func isParamRooted(v ssa.Value) bool {
 
 func ruleMessageIDs(c *core.Ctx, lc *core.LockCache) {
 	const rule = "C04.ids"
-	idF := c.Field("bus", "client", "messageID")
+	idF := clientMessageID(c)
 	next := c.Func("bus", "client", "nextMessageID")
 	newMsg := c.Func("bus", "client", "newMessage")
 	newHeader := c.Func("bus/net", "", "NewHeader")
@@ -264,6 +264,11 @@ func ruleMessageIDs(c *core.Ctx, lc *core.LockCache) {
 		return
 	}
 	class := core.LockClass{Owner: "bus.client", Field: "messageIDMutex"}
+	if st := strct(c, "bus", "client"); st != nil {
+		if cl, ok := guardOf(c, lc, "bus", st, idF, "messageIDMutex"); ok {
+			class = cl
+		}
+	}
 	n := 0
 	for _, fn := range srcFuncsOfPkg(c, "bus") {
 		for _, acc := range fieldAccesses(fn, idF) {
